@@ -178,7 +178,10 @@ def order_preserved(ctx):
     # Task._get_all_main_kwargs
     f = ctx.func('tasks.Task._get_all_main_kwargs')
     apps = [c for c in own_calls(f.node) if isinstance(c.func, ast.Attribute) and c.func.attr == 'append' and c.args and norm(c.args[0]).endswith('.result()')]
-    ok = len(apps) == 1 and isinstance(q.in_loop(apps[0]), ast.For) and norm(q.in_loop(apps[0]).iter) == 'pending_value' and all('isinstance(pending_value, list)' == t and pol for t, pol in q.guard_texts(apps[0])) \
+    outer = [l for l in own_nodes(f.node) if isinstance(l, ast.For) and norm(l.iter) == 'self._pending_main_kwargs.items()' and isinstance(l.target, ast.Tuple)]
+    pv = norm(outer[0].target.elts[1]) if len(outer) == 1 else None
+    ok = len(apps) == 1 and pv is not None and isinstance(q.in_loop(apps[0]), ast.For) and norm(q.in_loop(apps[0]).iter) == pv \
+        and all(f'isinstance({pv}, list)' == t and pol for t, pol in q.guard_texts(apps[0])) \
         and norm(apps[0].args[0]) == f'{norm(q.in_loop(apps[0]).target)}.result()'
     ctx.ob(f, 'result.append(future.result()) for future in pending_value', ok, 'results of a list of futures must be collected in list order')
     bad = [c for c in own_calls(f.node) if isinstance(c.func, (ast.Name, ast.Attribute)) and (dotted(c.func) or '').split('.')[-1] in ('sorted', 'reversed', 'sort', 'reverse', 'set', 'as_completed')]
@@ -217,8 +220,10 @@ def order_preserved(ctx):
     ctx.need(srcs >= 4, f'only {srcs} part-number sources')
     # legacy: executor.map keeps order
     f = ctx.func('__init__.MultipartUploader._upload_parts')
-    loops = [x for x in own_nodes(f.node) if isinstance(x, ast.For) and isinstance(x.iter, ast.Call) and (dotted(x.iter.func) or '').endswith('executor.map')]
-    ok = len(loops) == 1 and any(isinstance(c, ast.Call) and norm(c.func) == 'parts.append' and norm(c.args[0]) == norm(loops[0].target) for c in ast.walk(loops[0]))
+    loops = [x for x in own_nodes(f.node) if isinstance(x, ast.For) and isinstance(x.iter, ast.Call) and isinstance(x.iter.func, ast.Attribute) and x.iter.func.attr == 'map']
+    rn = q.returned_names(f)
+    ok = len(loops) == 1 and len(rn) == 1 and any(isinstance(c, ast.Call) and norm(c.func) == f'{rn[0]}.append' and norm(c.args[0]) == norm(loops[0].target) for c in ast.walk(loops[0])) \
+        and isinstance(q.single_def(f, rn[0]), ast.List)
     ctx.ob(f, 'for part in executor.map(...): parts.append(part)', ok, 'legacy parts must be collected in submission order (executor.map preserves it)')
 
 
@@ -244,7 +249,7 @@ def stream_is_read_to_eof_from_its_position(ctx):
     ok = len(ys) == 1 and len(reads) == 1 and g.all_dominate(g.nodes_of(reads[0]), g.nodes_of(ys[0]), g.NORMAL) and q.in_loop(ys[0]) is lp
     ctx.ob(f, 'each iteration yields the data it just read', ok, 'data read must be yielded exactly once')
     p = ctx.func('upload.UploadNonSeekableInputManager.get_put_object_body')
-    rd = [c for c in own_calls(p.node) if isinstance(c.func, ast.Attribute) and c.func.attr == 'read' and norm(c.func.value) == 'fileobj']
+    rd = [c for c in own_calls(p.node) if isinstance(c.func, ast.Attribute) and c.func.attr == 'read' and q.ntext(p, c.func.value) == 'transfer_future.meta.call_args.fileobj']
     ok = len(rd) == 1 and not rd[0].args and isinstance(rd[0]._parent, ast.BinOp) and norm(rd[0]._parent.left) == 'self._initial_data'
     ctx.ob(p, 'single-request body = self._initial_data + fileobj.read() (to EOF)', ok, 'the already buffered prefix and the rest of the stream must both be sent, in that order')
     r = ctx.func('upload.UploadNonSeekableInputManager._read')
@@ -259,8 +264,9 @@ def stream_is_read_to_eof_from_its_position(ctx):
                 ctx.ob(pf, c, ok, 'a capability probe must not move or consume the stream (only seek(0, 1) is a no-op)')
     s_ = ctx.func('upload.UploadSeekableInputManager.provide_transfer_size')
     g = ctx.cfg(s_)
-    tells = [c for c in own_calls(s_.node) if (dotted(c.func) or '') == 'fileobj.tell']
-    seeks = [c for c in own_calls(s_.node) if (dotted(c.func) or '') == 'fileobj.seek']
+    tells = [c for c in own_calls(s_.node) if isinstance(c.func, ast.Attribute) and c.func.attr == 'tell' and q.ntext(s_, c.func.value) == 'transfer_future.meta.call_args.fileobj']
+    tells = sorted(tells, key=lambda c: c.lineno)
+    seeks = [c for c in own_calls(s_.node) if isinstance(c.func, ast.Attribute) and c.func.attr == 'seek' and q.ntext(s_, c.func.value) == 'transfer_future.meta.call_args.fileobj']
     start = tells[0]._parent.targets[0].id if tells and isinstance(tells[0]._parent, ast.Assign) else None
     restore = [c for c in seeks if len(c.args) == 1 and norm(c.args[0]) == start]
     end_seek = [c for c in seeks if [norm(a) for a in c.args] == ['0', '2']]
@@ -271,8 +277,13 @@ def stream_is_read_to_eof_from_its_position(ctx):
     ok = len(sz) == 1 and isinstance(sz[0].args[0], ast.BinOp) and isinstance(sz[0].args[0].op, ast.Sub) and norm(sz[0].args[0].right) == start
     ctx.ob(s_, 'size = end position - start position', ok, 'the upload covers the bytes from the call-time position to EOF')
     b = ctx.func('upload.UploadSeekableInputManager._get_put_object_fileobj_with_full_size')
-    vals = [v for st, v in q.local_defs(b, 'size') if isinstance(v, ast.AST)]
-    ctx.ob(b, 'full size = fileobj.tell() + transfer size', len(vals) == 1 and norm(vals[0]) == 'fileobj.tell() + transfer_future.meta.size', f'{[norm(v) for v in vals]}')
+    rets = [x for x in own_nodes(b.node) if isinstance(x, ast.Return) and isinstance(x.value, ast.Tuple) and len(x.value.elts) == 2]
+    sz = q.resolve_local(b, rets[0].value.elts[1]) if len(rets) == 1 else None
+    ok = isinstance(sz, ast.BinOp) and isinstance(sz.op, ast.Add) and sorted([q.ntext(b, sz.left).replace('transfer_future.meta.call_args.fileobj', 'F'), norm(sz.right)]) == sorted(['F.tell()', 'transfer_future.meta.size']) \
+        if sz is not None else False
+    if isinstance(sz, ast.BinOp) and isinstance(sz.left, ast.Call) and isinstance(sz.left.func, ast.Attribute):
+        ok = sz.left.func.attr == 'tell' and q.ntext(b, sz.left.func.value) == 'transfer_future.meta.call_args.fileobj' and norm(sz.right) == 'transfer_future.meta.size'
+    ctx.ob(b, 'full size = fileobj.tell() + transfer size', bool(ok), f'{norm(sz)}')
     i = ctx.func('utils.ReadFileChunk.__init__')
     vals = [norm(v) for fn, v in ctx.cls('utils.ReadFileChunk').init_attrs.get('_start_byte', []) if fn is i]
     ctx.ob(i, 'ReadFileChunk starts at the current position of its file object', vals == ['self._fileobj.tell()'], f'{vals}')
